@@ -6,6 +6,7 @@ package server
 // now and under every continuation of the history.
 
 import (
+	"encoding/json"
 	"bytes"
 	"fmt"
 	"os"
@@ -63,7 +64,9 @@ func c11Internal(r *Router) map[string]string {
 			}
 			sb.WriteString("}")
 			if rc := s.rolloutController; rc != nil {
-				fmt.Fprintf(&sb, " split={%d %v %v}", rc.Percentage, rc.PercentageSplitPoint, rc.Allowlist)
+				// the controller as it would be saved: independent of how it is laid out in memory
+				b, _ := json.Marshal(rc)
+				fmt.Fprintf(&sb, " split=%s", b)
 			} else {
 				sb.WriteString(" split=<none>")
 			}
